@@ -10,9 +10,9 @@ package file
 //@ ghost var fs map[string]int
 
 //@ func os.Remove
-//@   trusted assumed (POSIX unlink)
+//@   trusted assumed (POSIX unlink); no file-system faults: removing an existing file succeeds (C11 quantifies over csvq's own terminations, not over unlink failures)
 //@   ensures result == nil ==> fs == store(old(fs), name, 0)
-//@   ensures result != nil ==> fs == old(fs)
+//@   ensures result != nil ==> fs == old(fs) && old(fs)[name] == 0
 //@   modifies fs
 //@ func os.Rename
 //@   trusted assumed (POSIX rename: atomic replace of newpath)
@@ -24,12 +24,13 @@ package file
 //@   ensures result == (fs[path] != 0)
 //@   modifies nothing
 //@ func go-file/v2.Close
-//@   trusted assumed (closing a descriptor changes no directory entry)
+//@   trusted assumed (closing a descriptor changes no directory entry); no file-system faults: closing a descriptor csvq opened succeeds
+//@   ensures result == nil
 //@   modifies nothing
 //@ func go-file/v2.Create
 //@   trusted assumed (O_CREATE|O_EXCL: fails when the path exists, otherwise creates a new empty file there)
 //@   ensures result1 == nil ==> old(fs)[path] == 0 && fs[path] != 0 && fs == store(old(fs), path, fs[path]) && result0 != nil
-//@   ensures result1 != nil ==> fs == old(fs)
+//@   ensures result1 != nil ==> forallv(p, string, fs[p] == old(fs[p]))
 //@   modifies fs
 
 // control-file paths: functions of the table path, pairwise distinct and different from the table path
@@ -66,6 +67,7 @@ package file
 //@   property C11 C10
 //@   safety
 //@   ensures [removed] result == nil && m != nil ==> fs[m.path] == 0
+//@   ensures [no-error-without-faults] result == nil
 //@   ensures [only-own-path] forallv(p, string, m == nil || p != m.path ==> fs[p] == old(fs[p]))
 //@   modifies fs
 
@@ -73,6 +75,8 @@ package file
 //@     (h.lockFile != nil ==> h.lockFile.path == lockPathOf(h.path)) &&
 //@     (h.tempFile != nil ==> h.tempFile.path == tempPathOf(h.path)) &&
 //@     (h.rlockFile != nil ==> isRLockPathOf(h.rlockFile.path, h.path))
+//@ spec def touchedBy(h *Handler, p string) bool = (h.lockFile != nil && p == lockPathOf(h.path)) || (h.tempFile != nil && p == tempPathOf(h.path)) ||
+//@     (h.rlockFile != nil && p == h.rlockFile.path) || (h.openType == ForCreate && p == h.path)
 //@ spec def ownPath(h *Handler, p string) bool = p == lockPathOf(h.path) || p == tempPathOf(h.path) || isRLockPathOf(p, h.path)
 
 //@ func (*Handler).close
@@ -85,6 +89,7 @@ package file
 //@   ensures [uncommitted-created-file-removed] result == nil && !old(h.closed) && h.openType == ForCreate ==> fs[h.path] == 0
 //@   ensures [existing-table-untouched] h.openType != ForCreate ==> fs[h.path] == old(fs[h.path])
 //@   ensures [other-paths-untouched] forallv(p, string, p != h.path && !ownPath(h, p) ==> fs[p] == old(fs[p]))
+//@   ensures [only-own-files-touched] forallv(p, string, !old(touchedBy(h, p)) ==> fs[p] == old(fs[p]))
 //@   modifies fs, h.fp, h.tempFile, h.lockFile, h.rlockFile, h.closed
 
 // C10: crash-point invariant of commit. At every point between two file-system calls the table file holds either
@@ -116,7 +121,7 @@ package file
 //@ func (*ControlFile).CloseWithErrors
 //@   property C11
 //@   safety
-//@   ensures [removed-unless-reported] result == nil && m != nil ==> fs[m.path] == 0
+//@   ensures [removed] m != nil ==> fs[m.path] == 0
 //@   ensures [only-own-path] forallv(p, string, m == nil || p != m.path ==> fs[p] == old(fs[p]))
 //@   modifies fs
 
@@ -130,16 +135,16 @@ package file
 //@   ensures [other-paths-untouched] forallv(p, string, p != h.path && !ownPath(h, p) ==> fs[p] == old(fs[p]))
 //@   ensures [control-files-gone-or-kept-for-retry] !old(h.closed) ==> (h.lockFile == nil && old(h.lockFile) != nil ==> fs[lockPathOf(h.path)] == 0) &&
 //@       (h.tempFile == nil && old(h.tempFile) != nil ==> fs[tempPathOf(h.path)] == 0) && (h.rlockFile == nil && old(h.rlockFile) != nil ==> fs[old(h.rlockFile.path)] == 0)
+//@   ensures [all-own-control-files-gone] !old(h.closed) ==> (old(h.lockFile) != nil ==> fs[lockPathOf(h.path)] == 0) && (old(h.tempFile) != nil ==> fs[tempPathOf(h.path)] == 0) &&
+//@       (old(h.rlockFile) != nil ==> fs[old(h.rlockFile.path)] == 0) && (h.openType == ForCreate ==> fs[h.path] == 0)
 //@   ensures [created-file-only-removed] h.openType == ForCreate ==> fs[h.path] == old(fs[h.path]) || fs[h.path] == 0
-//@   ensures [absent-control-files-not-touched] (old(h.lockFile) == nil ==> fs[lockPathOf(h.path)] == old(fs[lockPathOf(h.path)])) &&
-//@       (old(h.tempFile) == nil ==> fs[tempPathOf(h.path)] == old(fs[tempPathOf(h.path)])) &&
-//@       (old(h.rlockFile) == nil ==> forallv(q, string, isRLockPathOf(q, h.path) ==> fs[q] == old(fs[q])))
+//@   ensures [only-own-files-touched] forallv(p, string, !old(touchedBy(h, p)) ==> fs[p] == old(fs[p]))
 //@   modifies fs, h.fp, h.tempFile, h.lockFile, h.rlockFile
 
 //@ func TryCreateTempFile
 //@   property C11
 //@   safety
-//@   ensures [created] result1 == nil ==> result0 != nil && fresh(result0) && result0.path == tempPathOf(filePath) && fs[tempPathOf(filePath)] != 0 && fs == store(old(fs), tempPathOf(filePath), fs[tempPathOf(filePath)])
+//@   ensures [created] result1 == nil ==> result0 != nil && fresh(result0) && result0.path == tempPathOf(filePath) && fs[tempPathOf(filePath)] != 0 && old(fs)[tempPathOf(filePath)] == 0 && fs == store(old(fs), tempPathOf(filePath), fs[tempPathOf(filePath)])
 //@   ensures [failure-leaves-nothing] result1 != nil ==> result0 == nil && fs == old(fs)
 //@   modifies fs
 
@@ -149,8 +154,7 @@ package file
 //@   ensures [created] result1 == nil ==> result0 != nil && fresh(result0) && result0.path == lockPathOf(filePath) && old(fs)[lockPathOf(filePath)] == 0 &&
 //@       fs[lockPathOf(filePath)] != 0 && fs == store(old(fs), lockPathOf(filePath), fs[lockPathOf(filePath)])
 //@   ensures [no-reader-at-recheck] result1 == nil ==> forallv(q, string, isRLockPathOf(q, filePath) ==> fs[q] == 0)
-//@   ensures [failure-leaves-no-lock-of-ours] result1 != nil ==> result0 == nil && forallv(p, string, p != lockPathOf(filePath) ==> fs[p] == old(fs[p])) &&
-//@       (fs[lockPathOf(filePath)] == old(fs)[lockPathOf(filePath)] || fs[lockPathOf(filePath)] == 0 || old(fs)[lockPathOf(filePath)] == 0)
+//@   ensures [failure-leaves-no-lock-of-ours] result1 != nil ==> result0 == nil && forallv(p, string, fs[p] == old(fs[p]))
 //@   modifies fs
 
 //@ func NewHandlerForCreate
@@ -160,16 +164,17 @@ package file
 //@       result0.lockFile != nil && old(fs)[path] == 0 && fs[path] != 0 && fs[lockPathOf(path)] != 0
 //@   ensures [other-paths-untouched] forallv(p, string, p != path && p != lockPathOf(path) ==> fs[p] == old(fs[p]))
 //@   ensures [failure-creates-no-table] result1 != nil ==> fs[path] == old(fs[path])
+//@   ensures [failure-leaves-no-control-file] result1 != nil ==> forallv(p, string, fs[p] == old(fs[p]))
 //@   modifies fs
 
 // acquisition with retry (select / timers: outside the subset). Summary of the verified Try* functions it loops over.
 //@ func CreateControlFileContext
 //@   trusted assumed summary of the retry loop over tryCreateControlFile (whose three cases are verified: TryCreateLockFile, TryCreateRLockFile, TryCreateTempFile)
-//@   ensures result1 == nil && fileType == Lock ==> result0 != nil && fresh(result0) && result0.path == lockPathOf(filePath) && fs[lockPathOf(filePath)] != 0 && fs == store(old(fs), lockPathOf(filePath), fs[lockPathOf(filePath)])
-//@   ensures result1 == nil && fileType == Temporary ==> result0 != nil && fresh(result0) && result0.path == tempPathOf(filePath) && fs[tempPathOf(filePath)] != 0 && fs == store(old(fs), tempPathOf(filePath), fs[tempPathOf(filePath)])
+//@   ensures result1 == nil && fileType == Lock ==> result0 != nil && fresh(result0) && result0.path == lockPathOf(filePath) && fs[lockPathOf(filePath)] != 0 && old(fs)[lockPathOf(filePath)] == 0 && fs == store(old(fs), lockPathOf(filePath), fs[lockPathOf(filePath)])
+//@   ensures result1 == nil && fileType == Temporary ==> result0 != nil && fresh(result0) && result0.path == tempPathOf(filePath) && fs[tempPathOf(filePath)] != 0 && old(fs)[tempPathOf(filePath)] == 0 && fs == store(old(fs), tempPathOf(filePath), fs[tempPathOf(filePath)])
 //@   ensures result1 == nil && fileType != Lock && fileType != Temporary ==> result0 != nil && fresh(result0) && isRLockPathOf(result0.path, filePath) && fs[result0.path] != 0 &&
-//@       forallv(p, string, p != result0.path && p != lockPathOf(filePath) ==> fs[p] == old(fs[p]))
-//@   ensures result1 != nil ==> result0 == nil && forallv(p, string, p != lockPathOf(filePath) && !isRLockPathOf(p, filePath) ==> fs[p] == old(fs[p]))
+//@       old(fs)[result0.path] == 0 && fs == store(old(fs), result0.path, fs[result0.path])
+//@   ensures result1 != nil ==> result0 == nil && fs == old(fs)
 //@   modifies fs
 
 //@ func (*Handler).CreateControlFileContext
@@ -181,6 +186,10 @@ package file
 //@   ensures [success-registers-the-file] result == nil ==> (fileType == Lock ==> h.lockFile != nil && fs[lockPathOf(h.path)] != 0 && h.tempFile == old(h.tempFile) && h.rlockFile == old(h.rlockFile)) &&
 //@       (fileType == Temporary ==> h.tempFile != nil && fs[tempPathOf(h.path)] != 0 && h.lockFile == old(h.lockFile) && h.rlockFile == old(h.rlockFile) && fs[lockPathOf(h.path)] == old(fs[lockPathOf(h.path)])) &&
 //@       (fileType != Lock && fileType != Temporary ==> h.rlockFile != nil && h.lockFile == old(h.lockFile) && h.tempFile == old(h.tempFile))
+//@   ensures [success-adds-exactly-that-file] result == nil ==> (fileType == Lock ==> old(fs)[lockPathOf(h.path)] == 0 && fs == store(old(fs), lockPathOf(h.path), fs[lockPathOf(h.path)])) &&
+//@       (fileType == Temporary ==> old(fs)[tempPathOf(h.path)] == 0 && fs == store(old(fs), tempPathOf(h.path), fs[tempPathOf(h.path)])) &&
+//@       (fileType != Lock && fileType != Temporary ==> old(fs)[h.rlockFile.path] == 0 && fs == store(old(fs), h.rlockFile.path, fs[h.rlockFile.path]))
+//@   ensures [failure-leaves-no-file] result != nil ==> fs == old(fs)
 //@   ensures [failure-registers-nothing] result != nil ==> h.lockFile == old(h.lockFile) && h.tempFile == old(h.tempFile) && h.rlockFile == old(h.rlockFile)
 //@   ensures [other-paths-untouched] forallv(p, string, p != h.path && !ownPath(h, p) ==> fs[p] == old(fs[p]))
 //@   modifies fs, h.lockFile, h.tempFile, h.rlockFile
@@ -201,6 +210,7 @@ package file
 //@   property C11 C20
 //@   ensures [table-untouched] fs[path] == old(fs[path])
 //@   ensures [other-tables-untouched] forallv(p, string, p != path && p != lockPathOf(path) && p != tempPathOf(path) && !isRLockPathOf(p, path) ==> fs[p] == old(fs[p]))
+//@   ensures [failure-leaves-no-control-file] result1 != nil ==> forallv(p, string, fs[p] == old(fs[p]))
 //@   ensures [success-holds-read-lock] result1 == nil ==> result0 != nil && handlerWf(result0) && result0.openType == ForRead && result0.rlockFile != nil && result0.lockFile == nil && result0.tempFile == nil && !result0.closed
 //@   modifies fs
 
@@ -208,6 +218,7 @@ package file
 //@   property C11 C10
 //@   ensures [table-untouched] fs[path] == old(fs[path])
 //@   ensures [other-tables-untouched] forallv(p, string, p != path && p != lockPathOf(path) && p != tempPathOf(path) && !isRLockPathOf(p, path) ==> fs[p] == old(fs[p]))
+//@   ensures [failure-leaves-no-control-file] result1 != nil ==> forallv(p, string, fs[p] == old(fs[p]))
 //@   ensures [success-holds-lock-and-temp] result1 == nil ==> result0 != nil && handlerWf(result0) && result0.openType == ForUpdate && result0.lockFile != nil && result0.tempFile != nil && !result0.closed &&
 //@       fs[tempPathOf(path)] != 0 && fs[lockPathOf(path)] != 0 && fs[path] != 0
 //@   modifies fs
@@ -219,6 +230,8 @@ package file
 //@   ensures [success-creates-read-lock-only] controlFile != nil ==> isRLockPathOf(controlFile.path, filePath) && fs[controlFile.path] != 0 && fresh(controlFile)
 //@   ensures [other-paths-untouched] forallv(p, string, p != lockPathOf(filePath) && !isRLockPathOf(p, filePath) ==> fs[p] == old(fs[p]))
 //@   ensures [transient-lock-removed-when-no-error] err == nil ==> fs[lockPathOf(filePath)] == 0
+//@   ensures [success-adds-exactly-the-read-lock] err == nil ==> controlFile != nil && old(fs)[controlFile.path] == 0 && fs == store(old(fs), controlFile.path, fs[controlFile.path])
+//@   ensures [failure-leaves-nothing] err != nil ==> controlFile == nil && forallv(p, string, fs[p] == old(fs[p]))
 //@   ensures [blocked-by-existing-lock] old(fs)[lockPathOf(filePath)] != 0 ==> err != nil && controlFile == nil && fs == old(fs)
 //@   modifies fs
 
